@@ -176,7 +176,7 @@ class XMLWriter:
 
             if isinstance(fmt, ofmt.Property.__class__) and k == "value":
                 # Custom odML tuples require special handling for save loading from file.
-                if curr_el.dtype and curr_el.dtype.endswith("-tuple") and val:
+                if curr_el.dtype and curr_el.dtype.lower().endswith("-tuple") and val:
                     ele = E(k, odml_tuple_export(val))
                 else:
                     ele = E(k, to_csv(val))
